@@ -43,7 +43,7 @@ package preprocessor
 // while it is alive and its net contribution is 0 once it has returned, on every exit path.
 //@ func (*preprocessor).worker
 //@   property C17
-//@   attr hooked inputCh,outputCh
+//@   attr hooked @C01 inputCh,outputCh
 //@   local nIn int = 0
 //@   local nOut int = 0
 //@   local inHand *models.Item = nil
